@@ -1,5 +1,6 @@
 /* C11: session slot accounting and saved-context validity (Session.c / ContextCommands.c) */
 extern uint64_t verif_get_contextCounter(void); extern void verif_set_contextCounter(uint64_t);
+extern int verif_get_proof(uint32_t hierarchy, uint8_t *out); extern uint64_t verif_get_totalResetCount(void); extern uint32_t verif_get_clearCount(void);
 extern unsigned verif_get_slotmask(void); extern void verif_set_slotmask(unsigned); extern unsigned verif_get_contextArray(unsigned);
 
 typedef struct { uint8_t *p; uint32_t n; uint32_t h; uint64_t seq; int live; int epoch; } Ctx;
@@ -25,6 +26,10 @@ static void c11_save(Buf *b, uint32_t h) {
     if (r.rc == 0 && r.len > 10 + 18) {
         uint64_t seq = g64(r.p + 10); uint32_t sh = g32(r.p + 18);
         tr("s op=save h=%u ht=%u rc=0 seq=%llu saved_h=%u epoch=%d", h & 0xFFFFFF, h >> 24, (unsigned long long)seq, sh & 0xFFFFFF, c11_epoch);
+        /* the whole TPMS_CONTEXT and the secrets it is protected with: the Lean side recomputes integrity and fingerprint */
+        { uint32_t hier = g32(r.p + 22); uint8_t proof[64]; int pl = verif_get_proof(hier, proof);
+          tr_begin("s op=ctxblob seq=%llu saved_h=%u hier=%u total=%llu clear=%u", (unsigned long long)seq, sh, hier, (unsigned long long)verif_get_totalResetCount(), verif_get_clearCount());
+          trhex("proof", proof, pl > 0 ? pl : 0); trhex("blob", r.p + 28, g16(r.p + 26)); tr_end(); }
         if (c11_nctx < C11_MAXCTX) { Ctx *c = &c11_ctx[c11_nctx++]; c->n = r.len - 10; c->p = malloc(c->n); memcpy(c->p, r.p + 10, c->n); c->h = h; c->seq = seq; c->live = 1; c->epoch = c11_epoch; }
     } else tr("s op=save h=%u ht=%u rc=%u", h & 0xFFFFFF, h >> 24, r.rc);
 }
